@@ -9,6 +9,8 @@
             is abandoned), fails with "invalid channel" once the receiver has closed;
      recv   yields the items in send order, exactly once; pending when none is queued; end of
             stream after the sender closed and everything was taken;
+     probe  Sender::receiver_closed polled once: "closed" iff the receiver has closed, no effect on
+            the credit;
      credit the sender never holds more credit than the receiver has granted and not yet got back
             (Inv_Credit), and a sender that is out of credit while the receiver has room is topped
             up (Inv_NoStarvation: the low-water rules of broker and receiver guarantee it).
@@ -28,6 +30,7 @@ Enabled(c, op) ==
     [] op.op = "recv" -> c.open
     [] op.op = "closeS" -> c.open /\ ~c.sClosed
     [] op.op = "closeR" -> c.open /\ ~c.rClosed
+    [] op.op = "probe" -> c.open /\ ~c.sClosed
     [] OTHER -> FALSE
 
 \* the broker's rule when its view of the sender's credit is low: announce everything granted
@@ -53,6 +56,10 @@ Do(c0, op) ==
          ELSE [c EXCEPT !.res = "pending"]
     [] op.op = "closeS" -> [c EXCEPT !.sClosed = TRUE, !.res = "ok"]
     [] op.op = "closeR" -> [c EXCEPT !.rClosed = TRUE, !.res = "ok"]
+    \* Sender::receiver_closed polled once: ready exactly when the receiver has closed; asking never changes
+    \* anything -- in particular the credit announced meanwhile stays the sender's (the implementation reads the
+    \* same notification stream for both and has to keep what it reads)
+    [] op.op = "probe" -> [c EXCEPT !.res = IF c.rClosed THEN "closed" ELSE "pending"]
     [] OTHER -> c
 
 \* ---- properties of the composition (MC_ChanApi) ----
